@@ -60,7 +60,25 @@ class SetCash(bt.Algo):
         return True
 
 
-USER_ALGOS = {"QuietFlow": QuietFlow, "SetCash": SetCash}
+class Fills(bt.Algo):
+    """a user algo executing scripted quantity trades through the public API: several fills of one security on the same date,
+    back to back (no read or update of the tree in between)"""
+
+    def __init__(self, fills):
+        super(Fills, self).__init__()
+        self.fills = fills          # [(date, ticker, [q1, q2, ...])]
+
+    def __call__(self, target):
+        for d, tk, qs in self.fills:
+            if d == target.now:
+                px = target.universe[tk].loc[target.now] if tk in target.universe.columns else float("nan")
+                if px == px and px > 0:
+                    for q in qs:
+                        target.transact(q, child=tk)
+        return True
+
+
+USER_ALGOS = {"QuietFlow": QuietFlow, "SetCash": SetCash, "Fills": Fills}
 
 
 def mk_algo(d, ctx):
@@ -365,6 +383,13 @@ def gen_stack(rng, rs, spec, names, priced, prefix, opts, is_child=False):
         st.append({"a": "PTE_Rebalance", "args": [rng.choice([0.01, 0.03, 0.08]), {"$frame": fn}], "kw": {"lookback": {"$off": {"days": 20}}, "lag": lag}})
         st.append({"a": "WeighTarget", "args": [fn]})
         desc.append("pte")
+    if opts.get("fills") and priced and rng.random() < opts["fills"]:
+        fl = []
+        for _ in range(rng.randint(1, 3)):
+            q0 = rng.randint(5, 200)
+            fl.append([{"$date": rng.randint(1, nd - 1)}, rng.choice(priced), rng.choice([[q0, q0], [q0, -q0], [q0, -(q0 // 2), 3], [-q0, q0 // 3]])])
+        spec.setdefault("_tail", []).append({"$run_always": {"a": "Fills", "args": [fl]}})
+        desc.append("fills")
     tail = spec.pop("_tail", [])
     if opts.get("cash_reserve") and rng.random() < opts["cash_reserve"]:
         st.append({"a": "SetCash", "args": [rng.choice([0.1, 0.25, 0.5])]})
